@@ -18,9 +18,13 @@ PLAN = {
                    [ob('lemma_views_agree', 'h_views_agree', [], GET, {'expect_classes': {'assertion': 6, 'precondition': 10}}),
                     ob('lemma_views_write_through', 'h_views_write_through', [], GET + ['RegisterState_Set__st0'], {'expect_classes': {'assertion': 2}}),
                     ob('lemma_special_slots', 'h_special_slots', [], ['RegisterState_Set__stt2', 'RegisterState_Set__st0'], {'expect_classes': {'assertion': 2}}),
-                    ob('layout_strings', 'h_layout_strings', [], [], {'expect_classes': {'assertion': 12}, 'native': False})],
+                    ob('layout_strings', 'h_layout_strings', [], [], {'expect_classes': {'assertion': 12}, 'native': False}),
+                    {'id': 'ar_arp_disassembler_agreement_enumeration', 'entry': 'h_Get_ar0', 'native_exhaustive': 'verif_exh_ar_arp_agreement', 'exhaustive_bridges': ['replay/enum_ararp.cpp', '/repo/src/disassembler.cpp'],
+                     'canary': False, 'range': 65536, 'timeout': 3000,
+                     'bounded': 'complete native enumeration of all 65536 values of the ar/arp words on the real code: RegisterState::Set<ar0..arp3> fields vs the annotated disassembly, through the first opcode found for every (register selector, step selector) operand slot',
+                     'what': 'ar/arp words decode to the same register, offset and step in register.h and in the annotated disassembler'}],
     'trusted_base': ['the layout oracle spec/pseudo_spec.h is a transcription of register.h at the pinned commit (the repository documents no bit layout elsewhere); it is cross-checked only at the level of "which bits are defined" against test_verifier strings for 12 of the 18 words'],
     'assumptions': ['wf_regs: every backing field is within its hardware width, so the unmasked shifts of PseudoRegister::Get equal the masked view'],
     'not_covered': ['icr (mov_icr handlers) is not reachable from RegToBus16/RegFromBus16 and is not under contract',
-                    'ar/arp three-way agreement with the annotated disassembler and the test generator: std::string code (disassembler.cpp) and rand()-driven code (test_generator.cpp) are outside the extractor'],
+                    'ar/arp agreement with the annotated disassembler: std::string code, outside the extractor -- covered only by the bounded stand-in ar_arp_disassembler_agreement_enumeration; agreement with the rand()-driven test generator (test_generator.cpp) is not checked'],
 }
